@@ -96,9 +96,9 @@ class Number(Operand):
     )
 
     def compile(self):
-        name = self.name.capitalize()
-        if name in ('True', 'False'):
-            return name == 'True'
+        name = self.name.upper()  # Folds also non-ASCII matches (e.g., `ſ`).
+        if name in ('TRUE', 'FALSE'):
+            return name == 'TRUE'
         try:
             return int(name)  # Accepts leading zeros (e.g., `007`).
         except ValueError:
